@@ -166,15 +166,49 @@ def parse (g : Grammar) : Nat → Rhs → List Token → List (List PT × List T
           (parse g f (.star a) p.2).map (fun q => (p.1 ++ q.1, q.2)))) ++ [([], ts)]
 termination_by f r => (f, r)
 
-/-- All complete parses of `ts` from non-terminal `start`. -/
+/-- keep, for every remaining input, the first result that leaves it (ANTLR, too, commits to the first
+    alternative): what follows a result depends on its remaining input only, so later results with the same
+    remaining input can neither add an accepted sentence nor come first -/
+def dedupAux (seen : List (List Token)) : List (List PT × List Token) → List (List PT × List Token)
+  | [] => []
+  | p :: ps => if seen.contains p.2 then dedupAux seen ps else p :: dedupAux (p.2 :: seen) ps
+
+def dedupRest (l : List (List PT × List Token)) : List (List PT × List Token) := dedupAux [] l
+
+/-- `parse` with `dedupRest` applied to every intermediate result list. The query grammar is ambiguous
+    (`f ( )` inside a method chain is a method invocation and a predicate invocation), so `parse` returns a number
+    of forests that is exponential in the number of calls; `parseD` returns at most one per remaining input.
+    `Cpf.Lemmas.Dedup`: every result of `parseD` is a result of `parse`, and every remaining input `parse` reaches
+    `parseD` reaches. -/
+def parseD (g : Grammar) : Nat → Rhs → List Token → List (List PT × List Token)
+  | _, .eps, ts => [([], ts)]
+  | _, .tok k, ts =>
+      match ts with
+      | t :: r => if t.kind = k then [([PT.leaf t], r)] else []
+      | [] => []
+  | 0, .nt _, _ => []
+  | f + 1, .nt n, ts =>
+      match lookup g n with
+      | none => []
+      | some rhs => dedupRest ((parseD g f rhs ts).map (fun p => ([PT.node n p.1], p.2)))
+  | f, .seq a b, ts =>
+      dedupRest ((parseD g f a ts).flatMap (fun p => (parseD g f b p.2).map (fun q => (p.1 ++ q.1, q.2))))
+  | f, .alt a b, ts => dedupRest (parseD g f a ts ++ parseD g f b ts)
+  | 0, .star _, ts => [([], ts)]
+  | f + 1, .star a, ts =>
+      dedupRest (((parseD g (f + 1) a ts).flatMap (fun p =>
+          (parseD g f (.star a) p.2).map (fun q => (p.1 ++ q.1, q.2)))) ++ [([], ts)])
+termination_by f r => (f, r)
+
+/-- All complete parses of `ts` from non-terminal `start` (one per remaining input: see `parseD`). -/
 def parsesOf (g : Grammar) (fuel : Nat) (start : String) (ts : List Token) : List PT :=
-  (parse g fuel (.nt start) ts).filterMap (fun p =>
+  (parseD g fuel (.nt start) ts).filterMap (fun p =>
     match p.1, p.2 with
     | [t], [] => some t
     | _, _ => none)
 
 def accepts (g : Grammar) (fuel : Nat) (start : String) (ts : List Token) : Bool :=
-  (parse g fuel (.nt start) ts).any (fun p => p.2.isEmpty)
+  (parseD g fuel (.nt start) ts).any (fun p => p.2.isEmpty)
 
 /-- The fuel the driver uses for a token list. -/
 def fuelFor (ts : List Token) : Nat := 24 * (ts.length + 2)
